@@ -31,7 +31,8 @@ OPTEXT = {"eq": "=", "sw": "^", "ew": "$", "has": "%", "gt": ">", "lt": "<", "ge
 # term pool for numeric haystacks: (text, documented kind, numeric value)
 NUM_TERMS = [("5", "int", 5), ("-3", "int", -3), ("0", "int", 0), ("12", "int", 12), ("-99", "int", -99),
              ("5.0", "float", 5.0), ("5.5", "float", 5.5), ("-0.5", "float", -0.5), ("1e1", "float", 10.0),
-             ("abc", "text", None), ("5x", "text", None), ("", "text", None), ("1", "int", 1), ("99", "int", 99)]
+             ("abc", "text", None), ("5x", "text", None), ("", "text", None), ("1", "int", 1), ("99", "int", 99),
+             ("true", "bool", True), ("False", "bool", False), ("TRUE", "bool", True)]
 # terms whose typing the documentation does not settle: never-raises only
 LOOSE_TERMS = [" 5", "05", "None", "true", "False", "TRUE", "0x10", "1_0", "+5", "5.", ".5", "nan", "inf", "1,2",
                "[1]", "{}", "''", "\"5\"", "5 ", "- 3", "2020-01-01", "(", "a b"]
@@ -52,6 +53,8 @@ def spec_int(op, tkind, tval, ttext, h):
         return ttext in str(h)
     if tkind == "text":
         return False                     # ordering of a numeric value against a non-numeric term
+    if tkind == "bool":
+        return None                      # ordering against a boolean spelling: not documented, not asserted
     if op == "gt":
         return h > tval
     if op == "lt":
@@ -69,7 +72,7 @@ def int_ladder(op: str, k: int, h: int) -> bool:
     got = Searches.search_matches(OPS[op], ttext, h)
     want = spec_int(op, tkind, tval, ttext, h)
     note(observed=got, expected=want)
-    return got == want
+    return want is None or got == want
 
 
 FLOAT_H = [5.0, 5.5, -0.5, 2.5, 4.0, 0.0, -3.0, 10.0, 1e10]
